@@ -150,6 +150,22 @@ def mutants(wf, rng, limit):
                     body += " = 1" if lang == "yaql" else " == 1"
                 setter2(wrap(lang, body))
                 out.append(("unassigned_variable:%s:%s:%s" % (label, lang, form), "context", mm))
+    # an entry that reads the very variable it assigns, which nothing upstream assigns
+    for lang in ("yaql", "jinja"):
+        for form in FORMS[lang]:
+            body = (form % "ghost_var") + (" + 1" if lang == "yaql" else " ~ 'x'")
+            expr = wrap(lang, body)
+            mm = copy.deepcopy(base)
+            mm["vars"] = (mm.get("vars") or []) + [{"ghost_var": expr}]
+            out.append(("unassigned_variable:vars_self:%s:%s" % (lang, form), "context", mm))
+            mm = copy.deepcopy(base)
+            mm["output"] = (mm.get("output") or []) + [{"ghost_var": expr}]
+            out.append(("unassigned_variable:output_self:%s:%s" % (lang, form), "context", mm))
+            for nm in reach[:2]:
+                for j, tr in enumerate(base["tasks"][nm].get("next") or []):
+                    mm = copy.deepcopy(base)
+                    mm["tasks"][nm]["next"][j]["publish"] = [{"ghost_var": expr}]
+                    out.append(("unassigned_variable:publish_self:%s:%s" % (lang, form), "context", mm))
     if limit and len(out) > limit:
         out = rng.sample(out, limit)
     return out
